@@ -88,9 +88,25 @@ class View:
             return
         self.error = None
         self.expansions: List[Expansion] = []
+        # helper rules lark generates for ( ... )* and ( ... )+ carry a grammar-wide counter in their name; number them
+        # per enclosing rule instead, so that the same rule compiles to the same expansions wherever it stands
+        gen: Dict[str, str] = {}
+        per_origin: Dict[str, int] = {}
+
+        def canon(name: str) -> str:
+            m = re.fullmatch(r'__(.+)_(star|plus)_\d+', name)
+            if not m:
+                return name
+            if name not in gen:
+                k = per_origin.get(m.group(1), 0)
+                per_origin[m.group(1)] = k + 1
+                gen[name] = f'__{m.group(1)}_{m.group(2)}_{k}'
+            return gen[name]
+        for r in sorted(self.lark.rules, key=lambda r: int(re.fullmatch(r'__.+_(?:star|plus)_(\d+)', str(r.origin.name)).group(1)) if re.fullmatch(r'__.+_(?:star|plus)_(\d+)', str(r.origin.name)) else -1):
+            canon(str(r.origin.name))
         for i, r in enumerate(self.lark.rules):
-            syms = [(str(s.name), s.is_term, bool(getattr(s, 'filter_out', False))) for s in r.expansion]
-            self.expansions.append(Expansion(str(r.origin.name), str(r.alias) if r.alias else None, syms,
+            syms = [(canon(str(s.name)), s.is_term, bool(getattr(s, 'filter_out', False))) for s in r.expansion]
+            self.expansions.append(Expansion(canon(str(r.origin.name)), str(r.alias) if r.alias else None, syms,
                                              tuple(r.options.empty_indices or ()), bool(r.options.keep_all_tokens), r.options.priority, i))
         self.terminals: Dict[str, Terminal] = {}
         for t in self.lark.terminals:
